@@ -7,7 +7,8 @@ RULE = ('per generated graph and factory: absent ids at every sort position (bef
         'tuple, non-CURIE strings incl. near-CURIEs of existing nodes with a wrong delimiter) x every method; predicates with TWO bad arguments (unknown/unknown, unknown/junk, junk/unknown, '
         'junk/junk); index API of the indexed graph with integers {-n-2..-1, n, n+1, n+2, 10^9} (python and numpy ints) for the four '
         '*_idx traversals, idx_to_node and the is_*_of_idx predicates (bad/bad, bad/good, good/bad), asked on a fresh graph and AGAIN after every '
-        'valid index has been answered. '
+        'valid index has been answered (a valid index is addressed as "the index of node v", whichever number the graph gives v, and indices in '
+        'answers are reported as node labels: the numbering itself is free). '
         'Outcome kind (value | ValueError | other error) compared with the Lean model. Every case probes a rejection path; distinct '
         'by (factory, edges, absent id / junk class / integer).')
 
@@ -93,7 +94,8 @@ def queries_for(rng, edges, factory, budget):
         feats = gl.graph_features(edges)
         n = len(nodes) + (1 if feats['parentless'] >= 2 else 0)
         ints = list(range(-n - 2, 0)) + [n, n + 1, n + 2, 10 ** 9]
-        good = rng.randrange(n)
+        every = list(nodes) + (['owl:Thing'] if feats['parentless'] >= 2 else [])
+        good = ['of', rng.choice(every)]        # a valid index, whichever number the graph gave that node
         for i in ints:
             for ii in (i, np.int64(i)):
                 for q in gl.QS:
@@ -103,10 +105,10 @@ def queries_for(rng, edges, factory, budget):
                 qs.append((['predidx', p, i, i], ['predidx', p, i, i]))
                 qs.append((['predidx', p, good, i], ['predidx', p, good, i]))
                 qs.append((['predidx', p, i, good], ['predidx', p, i, good]))
-        for i in range(n):      # and every valid index is answered
-            qs.append((['idx2node', i], ['idx2node', i]))
+        for v in every:      # and every valid index is answered
+            qs.append((['idx2node', ['of', v]], ['idx2node', ['of', v]]))
             for q in gl.QS:
-                qs.append((['qidx', q, i], ['qidx', q, i]))
+                qs.append((['qidx', q, ['of', v]], ['qidx', q, ['of', v]]))
         # ... after which (anything the graph may have remembered from those answers) every bad index is still rejected
         for i in ints:
             for q in gl.QS:
